@@ -303,7 +303,7 @@ type vActor struct{ ID int }
 var vActorSrc = map[int]*rActor{}
 
 func (a vActor) ResponsibleCode() types.DataSource { return vActorSrc[a.ID].ResponsibleCode() }
-func (a vActor) String() string                   { return fmt.Sprintf("V%d", a.ID) }
+func (a vActor) String() string                    { return fmt.Sprintf("V%d", a.ID) }
 
 func mkSource(a *hactor) *rActor {
 	r := &rActor{id: a.id}
@@ -344,23 +344,23 @@ type hact struct {
 type hstep struct{ acts []hact }
 
 type hflow struct {
-	kind    string
-	arts    []*hart
-	img     *hart // the BIOSImage registered in the state (nil: none)
-	actors  []*hactor
-	steps   []hstep
-	uefi    bool     // uefi.ParseUEFIFirmwareBytes accepts img
-	exec    []hrange // executable files (image offsets), as built
-	exact   bool     // every range lies inside its artifact: the bitmap oracle applies
-	d6      bool     // two RawBytes artifacts are referenced
-	emptyC  bool     // some actor code reference has no bytes (no ranges / zero-length)
-	mixedFC bool     // image measured by offset references on a UEFI image
-	layKind string      // how the range slices lie in memory (gen.go: layouts)
-	tails   map[int]int // shared arrays: unused elements behind the last window
-	multi     bool     // volumes with several generated files (files.go)
-	fileKinds []string // ... what was built
-	passes    []passKind // the runs made over the one log, in order (passes.go)
-	srcRoot   error      // innermost error datasources.UEFIFiles(...).Data returns on the state of the run (nil: none)
+	kind      string
+	arts      []*hart
+	img       *hart // the BIOSImage registered in the state (nil: none)
+	actors    []*hactor
+	steps     []hstep
+	uefi      bool        // uefi.ParseUEFIFirmwareBytes accepts img
+	exec      []hrange    // executable files (image offsets), as built
+	exact     bool        // every range lies inside its artifact: the bitmap oracle applies
+	d6        bool        // two RawBytes artifacts are referenced
+	emptyC    bool        // some actor code reference has no bytes (no ranges / zero-length)
+	mixedFC   bool        // image measured by offset references on a UEFI image
+	layKind   string      // how the range slices lie in memory (gen.go: layouts)
+	tails     map[int]int // shared arrays: unused elements behind the last window
+	multi     bool        // volumes with several generated files (files.go)
+	fileKinds []string    // ... what was built
+	passes    []passKind  // the runs made over the one log, in order (passes.go)
+	srcRoot   error       // innermost error datasources.UEFIFiles(...).Data returns on the state of the run (nil: none)
 }
 
 type measureAct struct{ datas []types.References }
@@ -858,7 +858,7 @@ func obsVNI(iss validator.Issues, logIssues map[issueKey]bootengine.StepIssue) [
 			if !ok {
 				break
 			}
-			if !used[k] && li.Coords == is.Coords && li.Issue == is.Issue {
+			if !used[k] && sameIface(li.Coords, is.Coords) && sameIface(li.Issue, is.Issue) {
 				used[k] = true
 				id = k.step*100 + n
 				break
@@ -1165,4 +1165,16 @@ func main() {
 		"the slice-level model (Model/ValidatorsHeap.v) must reproduce every issue list (step, kind, non-measured and measured ranges) and the backing arrays after every run, " +
 		"the value-level model (Model/Validators.v) every issue list as well, for every memory layout; " +
 		"oracle: bitmaps over artifact offsets computed from the flow description, judged on every pass, plus: the log says the same after validation")
+}
+
+// sameIface: a == b for interface values whose dynamic type may be uncomparable (an error type with
+// slice fields): two values of an uncomparable type are the same only if they are the same pointer,
+// which a value type cannot be, so they are reported as different instead of panicking.
+func sameIface(a, b interface{}) (eq bool) {
+	defer func() {
+		if recover() != nil {
+			eq = false
+		}
+	}()
+	return a == b
 }
